@@ -87,6 +87,35 @@ let print_rows rows =
   if rows = [] then "-" else
   String.concat "" (List.map (fun (((num, cn), ((rn, seq), ic)), (an, alt)) ->
     Printf.sprintf "%d %s %s %d %d %s %d ; " (iz num) (hex_of_str cn) (hex_of_str rn) (iz seq) (iz ic) (hex_of_str an) (iz alt)) rows)
+(* atomline: "L <hex line> R <fields read back>"; the model writes the line from the fields (numeric columns taken
+   from the implementation's line) and reads it back *)
+let atomline_expected (args : string) (got : string) : string option =
+  match words args, words got with
+  | [het; serial; hname; el; altloc; hres; hchain; seqnum; icode; hseg; charge; _; _; _; _; _], ("L" :: hline :: "R" :: rfields) ->
+    let line = hex_decode hline in
+    if String.length line <> 80 then None else
+    let sub a n = str_of_string (String.sub line a n) in
+    let elu = String.uppercase_ascii el in
+    let t = { t_het = (het = "1"); t_serial = zi (int_of_string serial); t_name = str_of_hex hname;
+              t_el = str_of_string elu; t_ish = (elu = "H" || elu = "D"); t_altloc = zi (int_of_string altloc);
+              t_resname = str_of_hex hres; t_chain = str_of_hex hchain; t_seqnum = zi (int_of_string seqnum);
+              t_icode = zi (int_of_string icode); t_segment = str_of_hex hseg; t_charge = zi (int_of_string charge) } in
+    let ml = atom_line t (sub 30 24) (sub 54 6) (sub 60 6) in
+    let rest = [zi 10; zi 0] @ List.init 40 (fun _ -> zi 32) in
+    let r = read_atom (ml @ rest) (nat_of_int (List.length ml + 1)) in
+    let impl_elem = (match List.rev rfields with e :: _ -> e | [] -> "?") in
+    let elem = (match r.r_elem with
+      | Some (a, b) -> String.uppercase_ascii (String.trim (string_of_str [a; b]))
+      | None -> impl_elem) in
+    let rd = (match r.r_charge with
+      | None -> "EXC"
+      | Some q ->
+        String.concat " " [ (if r.r_het then "H" else "A"); string_of_int (iz r.r_serial); hex_of_str r.r_name;
+          string_of_int (iz r.r_altloc); hex_of_str r.r_resname; hex_of_str r.r_chain;
+          (match fst r.r_seq with Some n -> string_of_int (iz n) | None -> "none"); string_of_int (iz (snd r.r_seq));
+          hex_of_str r.r_segment; string_of_int (iz q); elem ]) in
+    Some ("L " ^ hex_of_str ml ^ " R " ^ rd)
+  | _ -> None
 let () =
   (* wrap serve: for `rows` the prediction is built from the first half of the observed line *)
   let n = ref 0 and bad = ref 0 and skipped = ref 0 in
@@ -102,6 +131,8 @@ let () =
              | Some i -> let first = String.sub got 0 i in
                (try Some (first ^ "| " ^ print_rows (to_rows (of_rows (parse_rows first)))) with e -> Some ("MODEL-ERROR " ^ Printexc.to_string e))
              | None -> None)
+          else if cmd = "atomline" then
+            (try atomline_expected args got with e -> Some ("MODEL-ERROR " ^ Printexc.to_string e))
           else (try handle cmd args with e -> Some ("MODEL-ERROR " ^ Printexc.to_string e)) in
         (match exp with
          | None -> incr skipped
